@@ -168,6 +168,21 @@ func readOracles(db *clover.DB, q QSpec, bigIntsAway bool) (fails []string) {
 	if msg := builderImmutable(q); msg != "" {
 		bad("%s", msg)
 	}
+	// Sort on a query that already has sort options (fewer, as many, none): the receiver and its siblings keep theirs
+	{
+		base := query.NewQuery(q.Coll).Sort(query.SortOption{Field: "a", Direction: 1}, query.SortOption{Field: "b", Direction: -1})
+		sib := base.Limit(3)
+		s0, s1 := snapQuery(base), snapQuery(sib)
+		_ = base.Sort(query.SortOption{Field: "b", Direction: -1})
+		_ = base.Sort()
+		_ = sib.Sort(query.SortOption{Field: "x", Direction: 1}, query.SortOption{Field: "s", Direction: 1})
+		if dd := s0.diff(snapQuery(base)); dd != "" {
+			bad("Sort on a sorted query modified its receiver: %s", dd)
+		}
+		if dd := s1.diff(snapQuery(sib)); dd != "" {
+			bad("Sort on a sorted query modified a query derived from the same base: %s", dd)
+		}
+	}
 	qq := q.build()
 	snap := snapQuery(qq)
 	all, err := db.FindAll(qq)
